@@ -26,6 +26,8 @@ func init() {
 		ruleR05j(c)
 		ruleTXIDAdvanceGuarded(c, "R05k")
 		ruleAllocationSwitchMatchesBuilder(c, "R05l")
+		ruleHeadAdvancesWithEveryLog(c, "R05m")
+		ruleTakenJobIsDispatched(c, "R05n")
 		ruleR05e(c)
 		ruleR05f(c, "R05f")
 	})
